@@ -48,4 +48,41 @@ theorem cg_step_eq (st : CGState K V) (p : V) :
     | rfl
     | (simp only [stepSt, cg_rr, cg_hp, cg_alpha, cg_solution, cg_residual, cg_rr_previous, modOps']; congr 1 <;> first | rfl | module)
 
+theorem cg_trace_eq (st : CGState K V) (p : V) (k : Nat) :
+    stepTr B H st p k =
+      (let ops := modOps' B
+       let Hf := fun v => H v
+       let rr := cg_rr ops Hf st.r
+       let hp := cg_hp ops Hf p
+       let α := cg_alpha ops Hf rr p hp
+       { x := cg_solution ops Hf st.x α p, r := cg_residual ops Hf st.r α hp, k := k }) := by
+  first
+    | rfl
+    | (simp only [stepTr, cg_rr, cg_hp, cg_alpha, cg_solution, cg_residual, modOps']; congr 1 <;> first | rfl | module)
+
+/-- one whole iteration of the loop written with the source formulas only -/
+theorem cg_iteration_eq (tol2 : Option K) (fuel k : Nat) (st : CGState K V) (tr : List (CGTrace V)) :
+    cgLoop (modOps' B) (fun v => H v) tol2 (fuel + 1) k st tr =
+      (let ops := modOps' B
+       let Hf := fun v => H v
+       let rr := cg_rr ops Hf st.r
+       if rr = 0 then .ok st.x "zero-residual" tr.reverse
+       else if tolHit tol2 rr then .ok st.x "tolerance" tr.reverse
+       else match (match st.rrPrev with
+          | none => some st.p
+          | some prev => if prev = 0 then none else some (cg_direction ops Hf st.r (cg_beta ops Hf rr prev) st.p)) with
+        | none => .nan k tr.reverse
+        | some p =>
+          let hp := cg_hp ops Hf p
+          if ops.dot p hp = 0 then .nan k tr.reverse
+          else
+            let α := cg_alpha ops Hf rr p hp
+            let x' := cg_solution ops Hf st.x α p
+            let r' := cg_residual ops Hf st.r α hp
+            cgLoop ops Hf tol2 fuel (k + 1) { x := x', r := r', p := p, rrPrev := some (cg_rr_previous ops Hf rr) }
+              ({ x := x', r := r', k := k } :: tr)) := by
+  first
+    | rfl
+    | (simp only [cgLoop_succ, cg_direction_eq B H, cg_step_eq B H, cg_trace_eq B H]; rfl)
+
 end M.SrcL
